@@ -701,6 +701,7 @@ pub fn run(run: &mut Run) -> Result<(), String> {
                 plan.lines = Some(b(2, 1));
                 if prop == "C10" || prop == "C07" {
                     plan.raws.push((Box::new(TwoLines { enemy_kings: vec![35] }), b(if prop == "C10" { 1 } else { 0 }, 0)));
+                    plan.raws.push((Box::new(EpUniverse::own_sliders()), b(1, 0)));
                 }
                 if prop == "C12" {
                     plan.raws.push((Box::new(FourMen { kings: Some(cornered_king_placements()), with_flags: false }), b(0, 0)));
@@ -766,6 +767,13 @@ pub fn replay(prop: &str, body: &Value) -> Result<(), String> {
     let case = &body["case"];
     let monitor = body["monitor"].as_str().unwrap_or("");
     match case["kind"].as_str().unwrap_or("") {
+        "start" if prop == "C06" => {
+            let rd = RootDesc::from_json(&case["root"]).ok_or("MACHINERY: bad root")?;
+            match rd.board() {
+                Ok(_) => Ok(()),
+                Err(e) => Err(format!("[C06.start] {}", e)),
+            }
+        }
         "text" if prop == "C06" => {
             let text = case["text"].as_str().ok_or("MACHINERY: no text")?;
             let mode = match case["mode"].as_str().unwrap_or("") {
